@@ -260,10 +260,96 @@ FixedCases ==
         [g |-> "mul_generator", expect |-> GeneratorRes(ExtOf(p), x),
          ops |-> << Wt(x, "s"), [op |-> "mul_generator", s |-> "s", pt |-> PtJ(p), out |-> "R"] >>])))
 
+\* ---- decomposition alias (C11 "no other bit vector satisfies it") -----------
+\* the bit and accumulator witnesses of component_decomposition::<N>(x) overridden
+\* with the bits / running sums of the INTEGER x + r; x is witness 6 (0-based), bit i
+\* is witness 7 + 2i, its running sum 8 + 2i
+AliasOps(x, n) ==
+  LET y == BigAdd(x, R)
+  IN << Wt(x, "x"), [op |-> "decomposition", w |-> "x", n |-> n, out |-> "bits"] >>
+     \o Flat([i \in 1..n |->
+           << [op |-> "set_witness", w |-> 7 + 2 * (i - 1), v |-> BInt(BigBit(y, i - 1))],
+              [op |-> "set_witness", w |-> 8 + 2 * (i - 1), v |-> BigMod(BigLow(y, i), R)] >>])
+AliasCases ==
+  Flat(Map(<<254, 255, 256>>, LAMBDA n : Map(<< BInt(5), Zero, Rnd(61) >>, LAMBDA x :
+        [g |-> "decomposition-alias", n |-> n, x |-> x, expect |-> Unsat, ops |-> AliasOps(x, n)])))
+
+\* ---- C07: one template (component + constant parameters), many value vectors ----
+ShapeVals == << Zero, One, M1, BInt(2), BigSub(RJ, BigOne), RJ, BSub(P2(252), One), P2(252), P2(254),
+                BSub(P2(254), One), Rnd(71), Rnd(72) >>
+\* field pairs used as (possibly malformed) point witnesses
+ShapePts == << Id, JubJubG, JubJubT8, JubJubMixed, Origin, OffCurve, << Rnd(73), Rnd(74) >>,
+               << One, Zero >>, << Zero, M1 >>,
+               \* a pole of the addition law against G: x with 1 + d x1 x2 y1 y2 = 0 has no
+               \* curve solution, so use an off-curve pair that makes a denominator vanish
+               << BInv(BMul(BEdwardsD, BMul(JubJubG[1], JubJubG[2]))), M1 >> >>
+ShV == IF Quick THEN SubSeq(ShapeVals, 1, 8) ELSE ShapeVals
+ShP == IF Quick THEN SubSeq(ShapePts, 1, 7) \o << ShapePts[10] >> ELSE ShapePts
+
+Sh(shape, ops) == [g |-> "shape", shape |-> shape, ops |-> ops]
+OneW(name, op) == Map(ShV, LAMBDA x : Sh(name, P1(x, op)))
+TwoW(name, op) == Map(ShV, LAMBDA x : Sh(name, P2w(x, BAdd(x, Rnd(75)), op)))
+     \o Map(ShV, LAMBDA x : Sh(name, P2w(Rnd(76), x, op)))
+OnePt(name, op) == Map(ShP, LAMBDA p : Sh(name, << PtOp(p, "P"), op >>))
+TwoPt(name, op) == Map(ShP, LAMBDA p : Sh(name, << PtOp(p, "P"), PtOp(JubJubG, "Q"), op >>))
+     \o Map(ShP, LAMBDA p : Sh(name, << PtOp(JubJubGNums, "P"), PtOp(p, "Q"), op >>))
+     \o Map(ShP, LAMBDA p : Sh(name, << PtOp(p, "P"), PtOp(p, "Q"), op >>))
+BitPt(name, op) == Flat(Map(<< Zero, One, BInt(2), M1 >>, LAMBDA b :
+                      Map(ShP, LAMBDA p : Sh(name, << Wt(b, "b"), PtOp(p, "P"), PtOp(JubJubG, "Q"), op >>))))
+NumS(n) == ToString(n)
+
+ShapeW == IF Quick THEN <<0, 1, 2, 7, 8, 9, 63, 64, 254, 255, 256>> ELSE [i \in 1..257 |-> i - 1]
+ShapeCases ==
+     Flat(Map(ShapeW, LAMBDA w : OneW("range_bits/" \o NumS(w), [op |-> "range_bits", w |-> "x", bits |-> w])))
+  \o Flat(Map(IF Quick THEN <<0, 1, 4, 128, 130>> ELSE [i \in 1..131 |-> i - 1],
+           LAMBDA w : OneW("range_pairs/" \o NumS(w), [op |-> "range_pairs", w |-> "x", pairs |-> w])))
+  \o Flat(Map(IF Quick THEN <<0, 1, 8, 127, 254>> ELSE [i \in 1..255 |-> i - 1],
+           LAMBDA w : OneW("truncate/" \o NumS(w), [op |-> "truncate", w |-> "x", n |-> w, out |-> "t"])))
+  \o Flat(Map(IF Quick THEN <<1, 8, 252, 255, 256>> ELSE [i \in 1..256 |-> i],
+           LAMBDA w : OneW("decomposition/" \o NumS(w), [op |-> "decomposition", w |-> "x", n |-> w, out |-> "b"])))
+  \o Flat(Map(IF Quick THEN <<0, 1, 3, 64, 127>> ELSE [i \in 1..128 |-> i - 1], LAMBDA w :
+           TwoW("logic-xor/" \o NumS(w), [op |-> "logic", a |-> "x", b |-> "y", pairs |-> w, xor |-> TRUE, out |-> "o"])
+        \o TwoW("logic-and/" \o NumS(w), [op |-> "logic", a |-> "x", b |-> "y", pairs |-> w, xor |-> FALSE, out |-> "o"])))
+  \o OneW("boolean", [op |-> "boolean", a |-> "x"])
+  \o TwoW("select_one", [op |-> "select_one", bit |-> "x", a |-> "y", out |-> "s"])
+  \o TwoW("select_zero", [op |-> "select_zero", bit |-> "x", a |-> "y", out |-> "s"])
+  \o TwoW("select", [op |-> "select", bit |-> "x", a |-> "y", b |-> "x", out |-> "s"])
+  \o TwoW("assert_equal", [op |-> "assert_equal", a |-> "x", b |-> "y"])
+  \o OneW("assert_equal_constant", [op |-> "assert_equal_constant", a |-> "x", c |-> BInt(77), pi |-> BInt(3)])
+  \o TwoW("gate", [op |-> "gate", w |-> <<"x", "y", "x", "y">>, pi |-> BInt(9),
+                   q |-> [m |-> Rnd(1), l |-> Rnd(2), r |-> Rnd(3), o |-> Rnd(4), f |-> Rnd(5), c |-> Rnd(6)]])
+  \o TwoW("gate_add", [op |-> "gate_add", w |-> <<"x", "y", 0, "x">>, out |-> "s",
+                       q |-> [l |-> Rnd(2), r |-> Rnd(3), f |-> Rnd(5), c |-> Rnd(6)]])
+  \o TwoW("gate_mul", [op |-> "gate_mul", w |-> <<"x", "y", 0, "x">>, out |-> "s",
+                       q |-> [m |-> Rnd(1), f |-> Rnd(5), c |-> Rnd(6)]])
+  \o TwoW("evaluated_output", [op |-> "evaluated_output", w |-> <<"x", "y", 0, "x">>, out |-> "s",
+                               q |-> [m |-> Rnd(1), l |-> Rnd(2), o |-> Rnd(4), c |-> Rnd(6)]])
+  \o TwoW("evaluated_output-q_o=0", [op |-> "evaluated_output", w |-> <<"x", "y", 0, "x">>, out |-> "s",
+                               q |-> [m |-> Rnd(1), l |-> Rnd(2), c |-> Rnd(6)]])
+  \o OnePt("assert_torsion_free", [op |-> "assert_torsion_free", p |-> "P", out |-> "T"])
+  \o OnePt("neg_point", [op |-> "neg_point", a |-> "P", out |-> "R"])
+  \o TwoPt("add_point", [op |-> "add_point", a |-> "P", b |-> "Q", out |-> "R"])
+  \o TwoPt("sub_point", [op |-> "sub_point", a |-> "P", b |-> "Q", out |-> "R"])
+  \o TwoPt("assert_equal_point", [op |-> "assert_equal_point", a |-> "P", b |-> "Q"])
+  \o BitPt("select_identity", [op |-> "select_identity", bit |-> "b", a |-> "P", out |-> "R"])
+  \o BitPt("select_point", [op |-> "select_point", bit |-> "b", a |-> "P", b |-> "Q", out |-> "R"])
+  \o Map(SubSeq(ShP, 1, IF Quick THEN 3 ELSE Len(ShP)), LAMBDA p :
+        Sh("mul_point", << Wt(Rnd(77), "s"), PtOp(p, "P"), [op |-> "mul_point", s |-> "s", p |-> "P", out |-> "R"] >>))
+  \o Map(ShV, LAMBDA x :
+        Sh("mul_point/scalar", << Wt(x, "s"), PtOp(JubJubG, "P"), [op |-> "mul_point", s |-> "s", p |-> "P", out |-> "R"] >>))
+  \o Map(ShV, LAMBDA x :
+        Sh("mul_generator", << Wt(x, "s"), [op |-> "mul_generator", s |-> "s", pt |-> PtJ(JubJubG), out |-> "R"] >>))
+  \o Flat(Map(<< JubJubG, Id, JubJubT8, JubJubMixed, OffCurve, Origin >>, LAMBDA p : Flat(Map(Reps(p), LAMBDA e :
+        << Sh("append_point", << [op |-> "append_point", pt |-> ExtJ(e), out |-> "P"] >>),
+           Sh("append_public_point", << [op |-> "append_public_point", pt |-> ExtJ(e), out |-> "P"] >>),
+           Sh("assert_equal_public_point", << PtOp(JubJubG, "P"), [op |-> "assert_equal_public_point", p |-> "P", pt |-> ExtJ(e)] >>) >>))))
+
 VARIABLE k
 AllCases ==
   CASE Family = "range" -> RangeCases("range_bits") \o RangeCases("range_check") \o RangePairCases
     [] Family = "decomposition" -> DecompCases
+    [] Family = "decomposition-alias" -> AliasCases
+    [] Family = "shape" -> ShapeCases
     [] Family = "truncate" -> TruncCases
     [] Family = "logic" -> LogicCases
     [] Family = "arith" -> ArithCases
@@ -277,5 +363,5 @@ Init == k \in 1..Len(CasesV)
 Next == UNCHANGED k
 Spec == Init /\ [][Next]_k
 Emit == PrintT(<<"SCEN", k, ToJson(CasesV[k] @@ [id |-> k])>>)
-PointsInv == PointsOK
+PointsInv == (k = 1) => PointsOK
 =============================================================================
